@@ -17,6 +17,11 @@ CONSTANTS
   BugMovedIgnored = FALSE
   BugMaxOffByOne = FALSE
   BugSelClamp = FALSE
+  BugRefreshDropsInit = FALSE
+  BugAskRunNoInit = FALSE
+  BugPoolStale = FALSE
+  BugStreamKeyless = FALSE
+  BugPromoteReplica = FALSE
 INVARIANTS TypeOK RedirectFollowed AskingPrecedes BoundedRedirects ReachesOwner RetryHonoured BatchOrder TxContiguousOneNode TxResentWhole ReplicaOnlyWhenOptedIn OutOfRangeFallsBackToPrimary NoResendAfterDenied
 CONSTRAINT GenBound
 VIEW MCView
